@@ -66,7 +66,10 @@ TRUSTED = [
     "random.seed/random() — contract self-tested at the start of every run",
     "convergence 'in the limit' is the law of large numbers applied to the exact kernel; not formalised",
 ]
-ASSUMPTIONS = ["<= 5 circuit modes, <= 4 photons; N <= 400 per tape replay; 6000 samples per statistical test"]
+ASSUMPTIONS = ["<= 5 circuit modes, <= 4 photons; N <= 400 per tape replay; 6000 samples per statistical test",
+               "global setting sampler_probability_threshold in {default 1e-9, 1e-6, 1e-3, 1e-2, 5e-2}, constant while an "
+               "object lives; sample_N_inputs' announced refusal (ValueError) of a stored distribution that misses more "
+               "than 1% is taken as documented behaviour (a refusal at <= 1% is a violation)"]
 
 F13_SIG = {"method": "Sampler.sample", "circuit_has_heralds": True}
 NPINT_SIG = {"method": "sample_N_inputs", "seed_type": "numpy-integer"}
@@ -957,8 +960,16 @@ def _run_history(ctx: Ctx, hist: dict, cnt):
 # A step naming a member that does not exist is skipped, so every sub-list of steps is a world (shrinking).
 
 
+WORLD_SHARED = "default components are shared between objects"
+WORLD_LEAK = "a default component carries what was done to another object"
+
+
+def world_kind(msg: str) -> str:
+    return "shared" if WORLD_SHARED in msg else "leak" if WORLD_LEAK in msg else "behaviour"
+
+
 class Member(Live):
-    def __init__(self, bases: list, spec: dict) -> None:  # noqa: super-init-not-called
+    def __init__(self, bases: list, spec: dict) -> None:
         self.kind, self.bases, self.name = spec["type"], bases, spec["new"]
         self.c, self.par = build_circuit(bases, spec["circ"])
         inp = fit_input(spec["input"], self.c.input_modes)
@@ -1050,6 +1061,13 @@ def run_world(ctx: Ctx, hist: dict, cnt) -> list[str]:
             except Exception as e:  # noqa: BLE001
                 return [f"oracle: world step {i}: building a {step['type']} with default components raised {exc_class(e)}"]
             cnt(f"world:new:{step['type']}" + (":after_a_tuning" if any(m.touched for m in members.values()) else ""))
+            got, want = members[step["new"]].components()
+            diff = [k for k in want if got[k] != want[k]]
+            if diff:
+                others = [o.name for o in members.values() if o.touched]
+                return [f"oracle: world step {i}: the {step['type']} {step['new']!r}, just built with default components, reads "
+                        f"{diff[0]} = {got[diff[0]]!r} instead of the default {want[diff[0]]!r}: {WORLD_LEAK} (objects tuned in "
+                        f"place before: {others or 'none in this world — an earlier one'})"]
         elif "tune" in step:
             m = members.get(step["tune"])
             if m is None:
@@ -1066,8 +1084,7 @@ def run_world(ctx: Ctx, hist: dict, cnt) -> list[str]:
                     k = diff[0]
                     return [f"oracle: world step {i}: after {step['op']} on {m.name} only, the {o.kind} {o.name!r} "
                             f"({'built with default components and never touched' if not o.touched else 'itself tuned before'}) "
-                            f"reads {k} = {got[k]!r}, its own configuration says {want[k]!r}: default components are "
-                            f"shared between objects"]
+                            f"reads {k} = {got[k]!r}, its own configuration says {want[k]!r}: {WORLD_SHARED}"]
         elif "use" in step:
             m = members.get(step["use"])
             if m is None:
@@ -1123,6 +1140,14 @@ def world_corpus() -> list[dict]:
         {"tune": "a", "op": ["backend_attr", "slos"]}, new("c", "sampler", c1, [1, 0, 1, 0]), obs(),
         {"tune": "b", "op": ["detector", {"eta": 0.5, "pdark": 0, "pnr": True}]},
         {"tune": "b", "op": ["detector_attr", "eta", 0.9]}, {"tune": "c", "op": ["source", [1, 0.9, 1]]}, obs(seed=5)]})
+    # two heralded samplers on the same unitary with the herald on different output modes (nothing derived from
+    # the circuit may be shared between objects either), one of them tuned
+    ws.append({"kind": "world", "bases": [u4a, u4b], "steps": [
+        new("h1", "sampler", {"base": 0, "heralds": [[0, 0, 0]], "param": None}, [1, 1, 0]),
+        {"use": "h1", "reads": ["n_inputs", "n_outputs"]},
+        new("h2", "sampler", {"base": 0, "heralds": [[0, 0, 3]], "param": None}, [1, 1, 0]), obs(who=["h2", "h1"]),
+        {"tune": "h2", "op": ["detector_attr", "eta", 0.5]},
+        new("h3", "sampler", {"base": 0, "heralds": [[1, 1, 2]], "param": None}, [1, 0, 1]), obs(seed=3)]})
     # quick samplers: default post-selection / photon counting
     ws.append({"kind": "world", "bases": [u4a, u4b], "steps": [
         new("q1", "quick", c0, [1, 0, 1, 0]), new("q2", "quick", c1, [2, 0, 1, 0]), {"use": "q2", "reads": ["n_outputs"]},
@@ -1138,7 +1163,7 @@ def gen_world(ctx: Ctx, rng) -> dict:
     kinds = rng.choice([["sampler"] * 4, ["sampler"] * 4, ["quick"] * 4, ["sampler", "quick", "sampler", "quick"]])
 
     def new(i):
-        hs = gen_heralds(rng, n, 1) if rng.random() < 0.3 else []
+        hs = gen_heralds(rng, n, 1) if rng.random() < 0.5 else []
         return {"new": names[i], "type": kinds[i], "circ": {"base": rng.randrange(2), "heralds": hs, "param": None},
                 "input": fg.rand_state(rng, n - len(hs), rng.choice([1, 2, 2, 3]) - sum(h[0] for h in hs) // 2)}
 
@@ -1447,10 +1472,12 @@ def corpus_histories() -> list[dict]:
     return hs
 
 
-def shrink_history(ctx: Ctx, hist: dict, cls: str) -> dict:
+def shrink_history(ctx: Ctx, hist: dict, cls: str, like: str = "") -> dict:
     def fails_h(h):
         ps, _ = run_history(ctx, h)
-        return bool(ps) and ps[0].startswith(cls)
+        # (a world: state shared between objects outlives the history that produced it, so a smaller world only
+        # counts when it fails in the same way — not because of what an earlier run left behind)
+        return bool(ps) and ps[0].startswith(cls) and (hist["kind"] != "world" or world_kind(ps[0]) == world_kind(like))
 
     steps = ddmin(hist["steps"], lambda ss: fails_h(dict(hist, steps=ss)), max_tests=40)
     cur = dict(hist, steps=json.loads(json.dumps(steps)))
@@ -1475,9 +1502,9 @@ def check_history(ctx: Ctx, hist: dict, tag: str):
     if probs:
         p = probs[0]
         cls = "oracle" if p.startswith("oracle") else "corr"
-        small = shrink_history(ctx, hist, cls)
+        small = shrink_history(ctx, hist, cls, p)
         sp, _ = run_history(ctx, small)
-        if not sp or not sp[0].startswith(cls):
+        if not sp or not sp[0].startswith(cls) or (hist["kind"] == "world" and world_kind(sp[0]) != world_kind(p)):
             small, sp = hist, probs
         if sp[0][:70] != p[:70]:  # (state shared between objects can outlive the history it was first seen in)
             sp = [sp[0] + f" [before shrinking, in a history of {len(hist['steps'])} steps: {p[:400]}]", *sp[1:]]
@@ -1936,6 +1963,9 @@ def replay(ctx: Ctx, path: str) -> None:
     elif "prog" in data.get("case", {}) and "det" in data["case"]:
         probs = run_case(ctx, data["case"])
         ctx.case("replay", True, sample=data["case"])
+        if not probs and str(data.get("kind", "")).startswith("stat-single"):
+            r = stat_single(ctx, data["case"], K=20000)
+            probs = [r[0]] if r else []
     else:
         print("replay: this replay records a directed probe (reuse / in-place mutation / statistics); rerun the check "
               "with the recorded seed")
